@@ -21,3 +21,5 @@
 (declare-fun nodetype_ (Pos) INTSORT)   ; what NodeType() returns at a position (0..4, as a Go int)
 (declare-fun ancn (Pos Int) Pos)        ; the n-th ancestor (ancn(p,0) = p), defined by the instance ancnStep
 (declare-fun predv (Int Pos) Bool)      ; what the node test stored in query object #1 answers at a position (deterministic)
+(declare-fun testv (Int Pos) Bool)      ; what test function #1 (the node test position()/last() count with) answers at a position
+(declare-fun cnt (Int Pos Int) Int)     ; cnt(f, p, i): how many of the first i children of p pass test f (instances cntZero, cntStep)
